@@ -41,7 +41,7 @@ fn main() {
     let seed: u64 = std::env::var("VERIF_SEED").ok().and_then(|s| s.trim().parse::<i128>().ok()).map(|v| v as u64).unwrap_or(0);
 
     // quiet panic hook: panics of the code under test are caught and reported as failures with their case
-    std::panic::set_hook(Box::new(|_| {}));
+    vlib::run::install_panic_hook();
 
     // watchdog: a hang is inconclusive (exit 2), never a violation
     let limit = Duration::from_secs(std::env::var("VERIF_WATCHDOG_S").ok().and_then(|s| s.parse().ok()).unwrap_or(match tier {
@@ -86,7 +86,12 @@ fn main() {
                 std::process::exit(2);
             }
             Err(p) => {
-                println!("REPLAY-FAIL property={id}: PANIC {}", vlib::run::panic_msg(&p));
+                let m = vlib::run::panic_msg(&p);
+                if m.starts_with(vlib::run::HARNESS_PANIC) {
+                    eprintln!("INCONCLUSIVE property={id}: {m}");
+                    std::process::exit(2);
+                }
+                println!("REPLAY-FAIL property={id}: PANIC {m}");
                 println!("VIOLATION property={id} replay={path}");
                 std::process::exit(1);
             }
